@@ -600,6 +600,12 @@ pub fn cmd_c10(tier: &str, out: &str) {
                 let mut g = crate::pf::Gen { rng: &mut rng, nonminimal: true, in_opt: false };
                 files.push(g.file().0);
             }
+            // every third case: octet strings whose content matters to the transport layer (zeros before a literal
+            // 1b1b1b1b, start / end look-alikes, 0x1b and zero runs); the file stays valid, checksums recomputed
+            if case % 3 == 2 {
+                let last = files.len() - 1;
+                crate::pf::wire_sensitive(&mut files[last], &mut rng);
+            }
         }
         // noise: arbitrary bytes not containing a start sequence; may end in 1b.. / a partial start sequence
         let mut noises: Vec<Vec<u8>> = vec![];
